@@ -7,7 +7,14 @@ A spec describes a tree of graphs::
      "nodes":  [{"g": 0, "nout": 1, "inputs": [ref, ...],       # index = node id
                  "attrs": [["body", "G", [1]], ["branches", "GS", [2, 3]]]}, ...]}
 
-    ref ::= None | ["n", node_id, output_index] | ["i", graph_id, input_index]
+    ref ::= None | ["n", node_id, output_index] | ["i", graph_id, input_index] | ["d", detached_id, output_index]
+
+Optionally ``"detached": [{"scope": gid, "how": "never"|"removed", "pos": k, "nout": m, "inputs": [ref, ...]}]``:
+nodes that are in **no graph** when the sort runs but still use (and so appear in ``uses()`` of)
+values visible from graph ``scope`` - either constructed and never added, or put into ``scope``
+at position ``pos`` and then taken out with the default non-safe ``Graph.remove`` (which keeps
+their inputs).  Being in no graph they are outside the statement's relation; the oracle ignores
+them and nodes of the graphs may even use their outputs (producer located in no graph).
 
 Every graph other than 0 is owned by exactly one attribute of exactly one node.  Specs are
 **lexically well scoped**: a node of graph H refers only to outputs of nodes (or inputs) of H or
@@ -238,6 +245,60 @@ def gen_structure(rng, n_nodes: int, depth_max: int, cyclic: bool) -> tuple[Spec
             else:
                 ins.insert(rng.randrange(len(ins) + 1), ref)
             meta["back_edges"] += 1
+    detached: list[dict] = []
+    meta.update({"detached_never": 0, "detached_removed": 0, "uses_of_detached_outputs": 0})
+    if nodes and rng.random() < 0.4:
+        users: dict[int, int] = {}
+        for n in nodes:
+            for r in n["inputs"]:
+                if r is not None and r[0] == "n":
+                    users[r[1]] = users.get(r[1], 0) + 1
+        capturing = [j for j, n in enumerate(nodes) if n["nout"] and
+                     any(r is not None and r[0] == "n" and nodes[r[1]]["g"] != n["g"] for r in n["inputs"])]
+        for _ in range(rng.choice([1, 1, 2, 3, 4])):
+            # the consumer's scope: prefer graphs that hold a capturing node nobody else consumes
+            lonely = [j for j in capturing if not users.get(j)]
+            x = rng.random()
+            if lonely and x < 0.5:
+                first = rng.choice(lonely)
+            elif x < 0.8:
+                first = rng.choice([j for j, n in enumerate(nodes) if n["nout"]] or [None])
+            else:
+                first = None
+            scope_g = nodes[first]["g"] if first is not None else rng.randrange(len(graphs))
+            chain_g = [scope_g]
+            while chain_g[-1] in own:
+                chain_g.append(nodes[own[chain_g[-1]]]["g"])
+            ins: list = []
+            if first is not None:
+                ins.append(["n", first, rng.randrange(nodes[first]["nout"])])
+                users[first] = users.get(first, 0)  # (detached consumers do not count as users)
+            for _k in range(rng.choice([0, 0, 1, 2])):
+                r = rng.random()
+                g = rng.choice(chain_g)
+                cands = [i for i in graphs[g]["order"] if nodes[i]["nout"]]
+                if r < 0.15 or not cands:
+                    ins.append(None)
+                elif r < 0.3 and detached and any(d["nout"] for d in detached):
+                    dd = rng.choice([k for k, d in enumerate(detached) if d["nout"]])
+                    ins.append(["d", dd, rng.randrange(detached[dd]["nout"])])
+                elif r < 0.45 and ins and any(x is not None for x in ins):
+                    ins.append(rng.choice([x for x in ins if x is not None]))
+                else:
+                    i = rng.choice(cands)
+                    ins.append(["n", i, rng.randrange(nodes[i]["nout"])])
+            rng.shuffle(ins)
+            how = rng.choice(["never", "removed"])
+            detached.append({"scope": scope_g, "how": how, "pos": rng.randrange(len(graphs[scope_g]["order"]) + 1),
+                             "nout": rng.choice([0, 1, 1, 2]), "inputs": ins})
+            meta["detached_" + how] += 1
+        # now and then a node of the graphs consumes the output of a node that is in no graph
+        for dd, d in enumerate(detached):
+            if d["nout"] and rng.random() < 0.25:
+                j = rng.randrange(len(nodes))
+                nodes[j]["inputs"].insert(rng.randrange(len(nodes[j]["inputs"]) + 1), ["d", dd, rng.randrange(d["nout"])])
+                meta["uses_of_detached_outputs"] += 1
+    spec["detached"] = detached
     meta["max_depth"] = max(depth)
     meta["multi_output_nodes"] = sum(1 for n in nodes if n["nout"] > 1)
     meta["cf_nodes"] = sum(1 for n in nodes if n["attrs"])
@@ -247,7 +308,16 @@ def gen_structure(rng, n_nodes: int, depth_max: int, cyclic: bool) -> tuple[Spec
 
 def with_orders(spec: Spec, orders: list[list[int]]) -> Spec:
     return {"graphs": [{"nin": g["nin"], "order": list(o)} for g, o in zip(spec["graphs"], orders)],
-            "nodes": spec["nodes"]}
+            "nodes": spec["nodes"], "detached": spec.get("detached", [])}
+
+
+def dangling_capture_nodes(spec: Spec) -> list[int]:
+    """Nodes of nested graphs that capture an outer node's output and whose outputs are consumed
+    by detached nodes only (>= 1 such consumer)."""
+    used_in_graph = {r[1] for n in spec["nodes"] for r in n["inputs"] if r is not None and r[0] == "n"}
+    used_detached = {r[1] for d in spec.get("detached", []) for r in d["inputs"] if r is not None and r[0] == "n"}
+    return [j for j, n in enumerate(spec["nodes"]) if j in used_detached and j not in used_in_graph
+            and any(r is not None and r[0] == "n" and spec["nodes"][r[1]]["g"] != n["g"] for r in n["inputs"])]
 
 
 def initial_orders(rng, spec: Spec, mode: str) -> list[list[int]]:
@@ -295,7 +365,7 @@ def all_order_combinations(spec: Spec, limit: int) -> Iterator[list[list[int]]] 
 # ---------------------------------------------------------------------------------------------
 # exhaustive space: all loop-free digraphs on n labelled nodes x all initial permutations x shapes
 # ---------------------------------------------------------------------------------------------
-EXH_SHAPES = ("flat", "nested_use", "two_level")
+EXH_SHAPES = ("flat", "nested_use", "two_level", "nested_use_dangling")
 
 
 def exhaustive_size(max_n: int) -> int:
@@ -336,6 +406,8 @@ def exhaustive_spec(n: int, mask: int, perm: int, shape: str) -> Spec:
     flat        all n nodes in the root, dependencies are direct inputs
     nested_use  every dependent node is a control-flow node whose body holds one node that
                 captures the producers' outputs (all constraints arise through nested uses)
+    nested_use_dangling  the same, and the capturing node's output is consumed only by a node
+                that is in no graph (never added / removed with the non-safe remove)
     two_level   root = [W, P]: W (GRAPHS attribute, two branches) *precedes* P although both
                 branches capture P; branch 0 holds the n nodes, dependencies alternate between
                 direct inputs and uses at depth 2
@@ -346,16 +418,21 @@ def exhaustive_spec(n: int, mask: int, perm: int, shape: str) -> Spec:
     if shape == "flat":
         nodes = [{"g": 0, "nout": 1, "inputs": [["n", i, 0] for i in preds[j]], "attrs": []} for j in range(n)]
         return {"graphs": [{"nin": 0, "order": order}], "nodes": nodes}
-    if shape == "nested_use":
+    if shape in ("nested_use", "nested_use_dangling"):
         graphs = [{"nin": 0, "order": order}]
         nodes = [{"g": 0, "nout": 1, "inputs": [], "attrs": []} for _ in range(n)]
+        detached = []
         for j in range(n):
             if preds[j]:
                 graphs.append({"nin": 0, "order": [len(nodes)]})
                 nodes[j]["attrs"].append(["body", "G", [len(graphs) - 1]])
                 nodes.append({"g": len(graphs) - 1, "nout": 1,
                               "inputs": [["n", i, 0] for i in preds[j]], "attrs": []})
-        return {"graphs": graphs, "nodes": nodes}
+                if shape == "nested_use_dangling":
+                    # the capturing node's only consumer is in no graph (removed / never added)
+                    detached.append({"scope": len(graphs) - 1, "how": "removed" if j % 2 else "never", "pos": 1,
+                                     "nout": 1, "inputs": [["n", len(nodes) - 1, 0]]})
+        return {"graphs": graphs, "nodes": nodes, "detached": detached}
     if shape == "two_level":
         # nodes 0..n-1 live in graph 1 (branch 0 of W); W = n, P = n+1, branch-1 user = n+2
         W, P, U = n, n + 1, n + 2
@@ -381,7 +458,8 @@ def exhaustive_spec(n: int, mask: int, perm: int, shape: str) -> Spec:
 # reduction (for shrinking a witness)
 # ---------------------------------------------------------------------------------------------
 def remove_nodes(spec: Spec, doomed: set[int], sub: int | None = None,
-                 doomed_graphs: set[int] | None = None) -> tuple[Spec, int | None] | None:
+                 doomed_graphs: set[int] | None = None,
+                 doomed_detached: set[int] | None = None) -> tuple[Spec, int | None] | None:
     """Remove nodes and/or attribute graphs (with everything nested in them); references to
     removed outputs become None; an attribute left without graphs is dropped.
     Returns (new spec, remapped ``sub`` graph id) or None if ``sub`` would disappear."""
@@ -410,11 +488,18 @@ def remove_nodes(spec: Spec, doomed: set[int], sub: int | None = None,
         if gid not in dead_graphs:
             gmap[gid] = len(gmap)
 
+    dmap = {}
+    for did, d in enumerate(spec.get("detached", [])):
+        if d["scope"] in gmap and did not in (doomed_detached or ()):
+            dmap[did] = len(dmap)
+
     def fix(ref):
         if ref is None:
             return None
         if ref[0] == "n":
             return ["n", nmap[ref[1]], ref[2]] if ref[1] in nmap else None
+        if ref[0] == "d":
+            return ["d", dmap[ref[1]], ref[2]] if ref[1] in dmap else None
         return ["i", gmap[ref[1]], ref[2]] if ref[1] in gmap else None
 
     graphs = [{"nin": g["nin"], "order": [nmap[x] for x in g["order"] if x in nmap]}
@@ -423,10 +508,16 @@ def remove_nodes(spec: Spec, doomed: set[int], sub: int | None = None,
               "attrs": [[a[0], a[1], [gmap[x] for x in a[2] if x in gmap]] for a in n["attrs"]
                         if any(x in gmap for x in a[2])]}
              for nid, n in enumerate(spec["nodes"]) if nid in nmap]
-    return {"graphs": graphs, "nodes": nodes}, (gmap[sub] if sub is not None else None)
+    detached = [dict(d, scope=gmap[d["scope"]], inputs=[fix(r) for r in d["inputs"]])
+                for did, d in enumerate(spec.get("detached", [])) if did in dmap]
+    return {"graphs": graphs, "nodes": nodes, "detached": detached}, (gmap[sub] if sub is not None else None)
 
 
-def drop_input(spec: Spec, nid: int, slot: int, to_none: bool) -> Spec:
+def drop_input(spec: Spec, nid: int, slot: int, to_none: bool, detached: bool = False) -> Spec:
+    if detached:
+        flipped = {"graphs": spec["graphs"], "nodes": spec.get("detached", [])}
+        return {"graphs": spec["graphs"], "nodes": spec["nodes"],
+                "detached": drop_input(flipped, nid, slot, to_none)["nodes"]}
     nodes = []
     for k, n in enumerate(spec["nodes"]):
         if k == nid:
@@ -437,12 +528,12 @@ def drop_input(spec: Spec, nid: int, slot: int, to_none: bool) -> Spec:
                 del ins[slot]
             n = dict(n, inputs=ins)
         nodes.append(n)
-    return {"graphs": spec["graphs"], "nodes": nodes}
+    return {"graphs": spec["graphs"], "nodes": nodes, "detached": spec.get("detached", [])}
 
 
 def spec_size(spec: Spec) -> int:
-    return 10 * len(spec["nodes"]) + sum(len(n["inputs"]) + sum(1 for r in n["inputs"] if r is not None)
-                                        for n in spec["nodes"])
+    every = spec["nodes"] + spec.get("detached", [])
+    return 10 * len(every) + sum(len(n["inputs"]) + sum(1 for r in n["inputs"] if r is not None) for n in every)
 
 
 def describe(spec: Spec) -> str:
@@ -452,6 +543,8 @@ def describe(spec: Spec) -> str:
     def ref(r: Any) -> str:
         if r is None:
             return "None"
+        if r[0] == "d":
+            return f"d{r[1]}.{r[2]}"
         return f"n{r[1]}.{r[2]}" if r[0] == "n" else f"g{r[1]}.in{r[2]}"
 
     lines = []
@@ -464,4 +557,7 @@ def describe(spec: Spec) -> str:
                          for a in n["attrs"])
             items.append(f"n{nid}({', '.join(ref(r) for r in n['inputs'])}){at}")
         lines.append(f"g{gid} [{where}]: " + "; ".join(items))
+    for did, d in enumerate(spec.get("detached", [])):
+        how = "never added to a graph" if d["how"] == "never" else f"was in g{d['scope']} at position {d['pos']}, then g{d['scope']}.remove(d{did})"
+        lines.append(f"detached d{did}({', '.join(ref(r) for r in d['inputs'])}) [{how}]")
     return "\n".join(lines)
